@@ -87,6 +87,55 @@ pub fn phase_uplink_lens(e: &E2e, first_seq: u32, n: u32, lens: &[usize]) -> Che
     Ok(())
 }
 
+/// C01, hold bound: a datagram that is alone in its batch leaves with the next 15 ms flush tick, also while other
+/// arms of the loop keep firing (the receiver chatters on every link every few milliseconds). Judged with a bound
+/// of 400 ms for something that takes at most 15 ms; discarded by the lag probe on an overloaded machine.
+pub fn phase_uplink_trickle(e: &E2e, addrs: &[u8]) -> CheckResult {
+    let stop = std::sync::atomic::AtomicBool::new(false);
+    let mut worst: (u64, u32) = (0, 0);
+    let mut lost = 0u32;
+    std::thread::scope(|s| {
+        s.spawn(|| {
+            let mut k = 0u32;
+            while !stop.load(std::sync::atomic::Ordering::Relaxed) {
+                for a in addrs {
+                    let mut d = vec![0x80u8, 0x06, 0, 0];
+                    d.extend_from_slice(&k.to_be_bytes());
+                    d.extend_from_slice(&[0u8; 8]);
+                    let _ = e.rx_send(*a, &d);
+                }
+                k += 1;
+                std::thread::sleep(Duration::from_millis(4));
+            }
+        });
+        std::thread::sleep(Duration::from_millis(100));
+        for k in 0..12u32 {
+            let d = client_datagram(40_000 + k, 300);
+            let t_send = e.ms();
+            e.client_send(&d);
+            let arrived = e.wait_until(Duration::from_millis(1500), |lg| lg.data.iter().rev().take(400).any(|x| x.1 == d));
+            if arrived {
+                let t_arr = e.log.lock().unwrap().data.iter().rev().find(|x| x.1 == d).map(|x| x.2).unwrap_or(t_send);
+                let hold = t_arr.saturating_sub(t_send);
+                if hold > worst.0 {
+                    worst = (hold, 40_000 + k);
+                }
+            } else {
+                lost += 1;
+                worst = (1500, 40_000 + k);
+            }
+            std::thread::sleep(Duration::from_millis(100));
+        }
+        stop.store(true, std::sync::atomic::Ordering::Relaxed);
+    });
+    let _ = e.client_drain(30, |_| false);
+    if std::env::var_os("VERIF_E2E_TRACE").is_some() {
+        eprintln!("trickle: worst hold {} ms (seq {}), not seen within 1.5 s: {lost}", worst.0, worst.1);
+    }
+    vensure!(worst.0 <= 400, "e2e-held-too-long", "real event loop: a single client datagram (seq {}) sent while the receiver chatters on every link every 4 ms reached the wire {} ms later; the hold bound is one 15 ms flush tick", worst.1, if lost > 0 { format!("more than 1500 ms ({lost} of 12)") } else { worst.0.to_string() });
+    Ok(())
+}
+
 /// C09: a burst of receiver traffic (more than one drain pass) reaches the client unchanged; internal types do not.
 pub fn phase_relay(e: &E2e, a: u8, n: u32) -> CheckResult {
     phase_relay_window(e, a, n, 0x7a00_0000, 6000)
@@ -171,7 +220,17 @@ pub fn phase_reload(e: &E2e, keep: &[u8], remove: u8, add: u8, next_seq: u32) ->
     }
     // survivors keep carrying the stream
     phase_uplink(e, next_seq, 400, 300)?;
-    phase_keepalive(e, keep, 1500)
+    phase_keepalive(e, keep, 1500)?;
+    // 3. a third reload, back to the list the sender was started with: it is a change like any other (the address
+    // dropped in step 2 comes back, the one added there goes)
+    let mut back: Vec<u8> = keep.to_vec();
+    back.push(remove);
+    e.write_ips(&back);
+    let t_back = e.ms();
+    e.sighup();
+    let ok = e.wait_until(Duration::from_secs(14), |lg| lg.order.iter().any(|o| o.1 == remove && o.3 == 4 && o.4 >= t_back));
+    vensure!(ok, "e2e-new-address-not-added", "real event loop: a third reload restored the start-up list; address {remove} (dropped by the second reload) did not register again within 14 s");
+    phase_uplink(e, next_seq + 1000, 200, 300)
 }
 
 /// C19: a reload requested while the start-up probe round is still open (one address does not answer its probe)
@@ -795,7 +854,7 @@ pub fn run(ctx: &Ctx, phase: Phase, scenarios: usize) {
                 return None;
             };
             let r: CheckResult = match phase {
-                Phase::Uplink => phase_uplink(&e, 1000, 1500 + (z % 1500) as u32, [188usize, 1316, 24, 700][(z >> 20) as usize % 4]).and_then(|_| phase_uplink_lens(&e, 10_000, 600, &[1316, 24, 1500, 1473, 1472, 1499, 188, 20])),
+                Phase::Uplink => phase_uplink(&e, 1000, 1500 + (z % 1500) as u32, [188usize, 1316, 24, 700][(z >> 20) as usize % 4]).and_then(|_| phase_uplink_lens(&e, 10_000, 600, &[1316, 24, 1500, 1473, 1472, 1499, 188, 20])).and_then(|_| phase_uplink_trickle(&e, &addrs)),
                 // the client address becomes known with the first client datagram
                 Phase::Relay => phase_uplink(&e, 1000, 60, 300).and_then(|_| phase_relay(&e, addrs[0], 150 + (z % 200) as u32)).and_then(|_| phase_relay(&e, addrs[n_links - 1], 70)).and_then(|_| phase_relay_quiet(&e, addrs[n_links - 1], 100 + (z % 150) as u32)),
                 Phase::Keepalive => phase_keepalive(&e, &addrs, 5500),
